@@ -549,7 +549,8 @@ def gen_histories(rng, tier):
     return out
 
 
-register("C09", gen=gen_histories, oracles=[oracle.c09], sections=None, nontrivial=raised_or_rerouted, tags=tags_flow,
+register("C09", lean_modules=["FsProofs.Properties.C09"], theorems=["Fs.C09.pfInit_perm", "Fs.C09.pflood_perm", "Fs.C09.pfInit_fields", "Fs.UB.seedQueue_perm"],
+         gen=gen_histories, oracles=[oracle.c09], sections=None, nontrivial=raised_or_rerouted, tags=tags_flow,
          rule="one graph object driven through a random history (updates with other fields, masks, base-level sets of different sizes - which rehash the hash set -, exponent changes, accumulate, basins), then final inputs applied twice (repeat) and to a fresh graph on the same grid object; all observable tables, elevation, accumulation and basins compared bit for bit; non-trivial = resolver raised some node",
          trusted_base=FLOW_TB + ["the hash-set iteration order of base levels is handed to the model as an input and is universally quantified in the seed-order theorem"])
 
@@ -596,9 +597,9 @@ _lvl("C07", "proof",
 _lvl("C08", "proof",
      "Theorem: every status read of the filtered iterator's skip loop is at an index < size when the bounds test precedes the filter (conjunct order regenerated from iterators.hpp each run). Everything else is the sanitizer build: every scenario of the other properties runs under ASan+UBSan+_GLIBCXX_ASSERTIONS; each distinct report is a violation. Partial by nature: Lean proves index logic of the model, not absence of UB in C++.",
      "Lean 4 access-log theorem + translator (conjunct order) + ASan/UBSan execution of all scenario families")
-_lvl("C09", "translation_validation",
-     "Histories on one object vs a fresh object vs the Lean model (a pure function of the inputs in force): every observable compared bit for bit; the hash-set seed order is handed to the model and the result must not depend on it. Seed-order irrelevance theorem exists for an instrumented copy (seedQueue_perm) and is not yet tied.",
-     "history-vs-fresh differential testing + correspondence with a pure Lean model")
+_lvl("C09", "proof",
+     "The model's update_routes is a pure function of (operators with their parameters, topology, mask, base levels, elevation) by construction; the only input through which the history of the C++ object can reach it is the iteration order of the hash set of base levels, handed over by the harness as a list. Theorems on the executed definitions: pfInit_perm / pflood_perm - for any two base-level lists that are permutations of each other the flood starts from the same state (queue order included, thanks to the (elevation, index) ordering of the queue) and returns the same elevations, for every grid and elevation field over a linear order; all other operators use the base levels only through membership. Correspondence: random histories on one object vs a fresh object vs the model, every observable bit for bit, input array never written.",
+     "Lean 4 permutation-invariance proof on the executed flood initialisation + history-vs-fresh differential testing against the pure model")
 _lvl("C17", "proof",
      "Theorem on the executed skip loop (skipFwd_stop: it stops at the first index satisfying the filter or at size). Status composition is executed by the model from the regenerated enum/precedence constants and compared exhaustively over all 4^4 / 4^2 border mixes on small shapes, plus malformed override maps with error kinds; iteration in both directions compared for every filter.",
      "Lean 4 iterator theorem + translator constants + exhaustive border-mix correspondence")
